@@ -119,6 +119,11 @@ func (c *Ctx) wrap(x Term, t types.Type) Term {
 	if x.UB >= 0 && x.UB <= ii.w {
 		return x
 	}
+	if ii.w == 64 && c.NoWrapU64 {
+		// uint64 arithmetic treated as mathematical; the executor emits an obligation that
+		// the result is in range at every such operation of the code
+		return x
+	}
 	r := mk(SInt, "mod", x, bigLit(pow2(ii.w)))
 	r.UB = ii.w
 	r.LZ = min(x.LZ, ii.w)
